@@ -20,6 +20,10 @@ pub struct Case {
     /// the response also carries a Location field (only used with statuses that are not followed)
     #[serde(default)]
     pub location: bool,
+    /// the response also says `Connection: close` (as responses to this client's requests usually do);
+    /// that field plays no part in choosing the framing
+    #[serde(default)]
+    pub conn_close: bool,
 }
 
 #[derive(Clone, Debug, PartialEq, Eq)]
@@ -95,6 +99,9 @@ fn wire(c: &Case) -> Vec<u8> {
     let mut w = format!("HTTP/1.1 {} X\r\n", c.status).into_bytes();
     if c.location {
         w.extend_from_slice(b"Location: http://h.test/elsewhere\r\n");
+    }
+    if c.conn_close {
+        w.extend_from_slice(b"Connection: close\r\n");
     }
     // Content-Length fields around the Transfer-Encoding field, so that field order is exercised
     for (i, v) in c.cl.iter().enumerate() {
@@ -286,6 +293,7 @@ pub fn c03(ctx: &Ctx) -> Report {
                         cuts: vec![],
                         byte_reads: false,
                         location: false,
+                        conn_close: false,
                     };
                     for byte_reads in [false, true] {
                         for uniform in [None, Some(1usize)] {
@@ -294,6 +302,15 @@ pub fn c03(ctx: &Ctx) -> Report {
                             c.uniform = uniform;
                             cases.push(c);
                         }
+                    }
+                    // the framing does not depend on a Connection: close field in the response
+                    {
+                        let mut c = base.clone();
+                        c.conn_close = true;
+                        cases.push(c.clone());
+                        c.byte_reads = true;
+                        c.uniform = Some(1);
+                        cases.push(c);
                     }
                     // a 3xx that is not followed keeps its body framing, with or without a Location
                     if matches!(s, 300 | 304 | 305 | 306 | 399) {
@@ -350,7 +367,7 @@ pub fn c03(ctx: &Ctx) -> Report {
     rep.set("exhaustive", true);
     rep.set(
         "rule",
-        format!("full product: {} methods x {} statuses x {} Content-Length lists x {} Transfer-Encoding values x {{bytes(), 1-byte reads}} x {{unsegmented, 1-byte segments}} (thorough: plus 2-cut segmentations); every case sends a body in which chunked / length / close / empty readings all differ; non-trivial = carries a Content-Length or Transfer-Encoding field", methods.len(), statuses.len(), cls.len(), tes.len()),
+        format!("full product: {} methods x {} statuses x {} Content-Length lists x {} Transfer-Encoding values x {{bytes(), 1-byte reads}} x {{unsegmented, 1-byte segments}} (thorough: plus 2-cut segmentations), each also with a `Connection: close` field in the response, the non-followed 3xx statuses also with a Location; every case sends a body in which chunked / length / close / empty readings all differ; non-trivial = carries a Content-Length or Transfer-Encoding field", methods.len(), statuses.len(), cls.len(), tes.len()),
     );
     rep.assume("where the body is empty by method/status AND the Content-Length is invalid, or chunked applies AND the Content-Length is invalid, both failing and applying the rule are accepted (the property states both rules, not their precedence)");
     rep.assume("Content-Length forms '+5' and '5, 5', and Transfer-Encoding without a final chunked, are outside the space (RFC leaves latitude / property silent)");
